@@ -614,7 +614,7 @@ func (g *c17CGen) structBody(sid int, d int) {
 		g.indent(d)
 		if len(st.fields) > 0 && g.r.Chance(0.6) { // a near miss of a valid key of this struct
 			k := st.fields[g.r.Intn(len(st.fields))].key
-			k = g.pick(k+"2", k+"s", "x"+k, strings.ToUpper(k), k[:len(k)-1], strings.ToUpper(k[:1])+k[1:], k+"_")
+			k = g.pick(k+"2", k+"s", "x"+k, strings.ToUpper(k), k[:len(k)-1], strings.ToUpper(k[:1])+k[1:], k+"_", "_"+k, "__"+k, strings.ReplaceAll(k, "_", "-"), "x-"+k, k+"#", "_")
 			g.b.WriteString(k + ": " + g.pick("1", "x", "true") + "\n")
 			g.stats.Inc("cfg.mut.unknown-key-near-miss")
 		} else {
@@ -691,7 +691,7 @@ func (g *c17CGen) config() string {
 	if g.r.Chance(0.05) {
 		if g.r.Chance(0.6) { // near misses of valid section names, and of "include"
 			n := g.s.specs[g.r.Intn(len(g.s.specs))].key
-			n = g.pick(n+"2", n+"s", "x"+n, strings.ToUpper(n), n[:len(n)-1], strings.ToUpper(n[:1])+n[1:], "include2", "includes", "include_optional", "Include", "includ")
+			n = g.pick(n+"2", n+"s", "x"+n, strings.ToUpper(n), n[:len(n)-1], strings.ToUpper(n[:1])+n[1:], "include2", "includes", "include_optional", "Include", "includ", "_"+n, "__"+n, "_", "x-"+n, n+"-", "_include", "_scratch")
 			g.b.WriteString(n + " { }\n")
 			g.stats.Inc("cfg.mut.unknown-section-near-miss")
 		} else {
@@ -710,6 +710,8 @@ var c17FixedConfigs = []string{
 	// near misses of section names and of "include" (which alone is skipped by the unknown-section test)
 	"global{} routing{} include2{}", "global{} routing{} includes{ a }", "global{} routing{} include_optional{ 'a.dae' }", "global{} routing{} Include{}", "global{} routing{} includ{}",
 	"global{} routing{} include{ 'a.dae' }", "global{} routing{} Global{}", "global{} routing{} globals{}", "global{} routing{} dns2{}", "global{} routing{} DNS{}", "global{} routing{} node2{ a }",
+	"global{ _tproxy_port: 1 } routing{}", "global{ _note: x } routing{}", "global{} routing{} _scratch{ a: b }", "global{} routing{} _{ }", "global{ tproxy-port: 1 } routing{}", "global{ x-note: 1 } routing{}",
+	"global{ log_level: ' info ' } routing{}", "global{ tproxy_port: ' 1' } routing{}", "global{ log_level: 'a\r\nb' } routing{}", "global{ log_level: 'p\xe9ss' } routing{}", "global{ log_level: '\xff' } routing{}",
 	"global{ Log_level: info } routing{}", "global{ log_levels: info } routing{}", "global{ log_leve: info } routing{}", "global{} routing{ Fallback: direct }", "global{} routing{} dns{ Upstream{ } }",
 	"global{ log_level: info [x: y] } routing{}", "global{ lan_interface: f(x) } routing{}", "global{} routing{ fallback { x } }", "global{} routing{} group{ g { policy: min filter { name(x) } } }",
 	"global{} routing{} node{ n: f(a, b, c, d, e, f) }", "global{} routing{} node{ n: f(a, b, c, d, e) && !g(k: v) }",
@@ -938,6 +940,17 @@ func (w *c17Watch) Drain() (opened []string) {
 	return out
 }
 
+func c17QuoteGlob(p string) string {
+	var b strings.Builder
+	for i := 0; i < len(p); i++ {
+		if strings.IndexByte(`*?[\`, p[i]) >= 0 {
+			b.WriteByte('\\')
+		}
+		b.WriteByte(p[i])
+	}
+	return b.String()
+}
+
 func c17MergeErrClass(err error) string {
 	msg := err.Error()
 	for _, m := range [][2]string{
@@ -1008,7 +1021,7 @@ func TestVerifC17Config(t *testing.T) {
 			}
 			stats.Inc("cfg.result." + cls)
 		}
-		st.Emit(fmt.Sprintf("c %s %d %s", c17H(string([]rune(in))), len(entries), strings.Join(entries, " ")), out)
+		st.Emit(fmt.Sprintf("c %s %d %s", c17H(in), len(entries), strings.Join(entries, " ")), out)
 	}
 	if shard == 0 {
 		for _, s := range c17FixedConfigs {
@@ -1116,13 +1129,36 @@ func TestVerifC17Config(t *testing.T) {
 	if err != nil {
 		t.Fatal(err)
 	}
+	// $TMPDIR may contain a symbolic link: os.Getwd() after Chdir and inotify report the RESOLVED path,
+	// so the whole tree is created and described under its resolved name
+	if rb, err := filepath.EvalSymlinks(base); err == nil {
+		base = rb
+	}
 	defer os.RemoveAll(base)
 	nDirected := 0
 	if shard == 0 {
 		nDirected = len(c17DirectedTrees("/x"))
 	}
 	for i := 0; i < nDirected+nm; i++ {
-		root := filepath.Join(base, fmt.Sprintf("t%d", i), "etc")
+		etcName, sibling := "etc", ""
+		if i >= nDirected || i%3 == 2 {
+			switch k := r.Intn(100); {
+			case k < 4:
+				etcName, sibling = "et[c]", "etc"
+			case k < 8:
+				etcName, sibling = "dae[1]", "dae1"
+			case k < 11:
+				etcName, sibling = "e?c", "eXc"
+			case k < 14:
+				etcName, sibling = "e*c", "eXYc"
+			case k < 17:
+				etcName, sibling = "e\\c", "ec"
+			}
+		}
+		if sibling != "" {
+			stats.Inc("inc.entry-dir-with-glob-metacharacter." + etcName)
+		}
+		root := filepath.Join(base, fmt.Sprintf("t%d", i), etcName)
 		var files []c17File
 		var entry string
 		var incVals []string
@@ -1137,6 +1173,18 @@ func TestVerifC17Config(t *testing.T) {
 			files, entry, incVals = g.includeTree(root)
 		}
 		_ = os.MkdirAll(root, 0o750)
+		if sibling != "" { // a neighbour directory the unquoted directory name would match as a pattern
+			for _, n := range []string{"a.dae", "b.dae", "config.dae", "sub/c.dae", "sub/d.dae"} {
+				p := filepath.Join(filepath.Dir(root), sibling, n)
+				_ = os.MkdirAll(filepath.Dir(p), 0o750)
+				_ = os.WriteFile(p, []byte("node {\n  sibling_"+strings.NewReplacer("/", "_", ".", "_").Replace(n)+": 'x'\n}\n"), 0o600)
+			}
+		}
+		// a directory unrelated to the entry directory ("distribution rule sets"): absolute includes into it
+		// must be refused, and it is watched like the tree itself
+		trusted := filepath.Join(base, fmt.Sprintf("t%d-share", i), "dae")
+		_ = os.MkdirAll(trusted, 0o750)
+		_ = os.WriteFile(filepath.Join(trusted, "rules.dae"), []byte("node {\n  shared_rules: 'x'\n}\n"), 0o600)
 		outside := filepath.Join(filepath.Dir(root), "outside.dae")
 		switch r.Intn(6) { // what lies outside the entry directory varies: readable, too open, broken, a directory, absent
 		case 0:
@@ -1168,6 +1216,31 @@ func TestVerifC17Config(t *testing.T) {
 			}
 			_ = os.WriteFile(p, []byte(f.content), f.perm)
 			_ = os.Chmod(p, f.perm)
+		}
+		if i >= nDirected && r.Chance(0.08) { // an absolute include into the unrelated directory
+			v := g.pick(filepath.Join(trusted, "rules.dae"), filepath.Join(trusted, "*.dae"))
+			if b, err := os.ReadFile(entry); err == nil {
+				_ = os.WriteFile(entry, append([]byte("include {\n  '"+v+"'\n}\n"), b...), 0)
+				incVals = append(incVals, v)
+				stats.Inc("inc.absolute-include-into-unrelated-dir")
+			}
+		}
+		if i >= nDirected && r.Chance(0.03) { // a file larger than 64 KiB (1 MiB in thorough): nothing may be cut
+			size := 70000
+			if VThorough() && r.Chance(0.3) {
+				size = 1100000
+			}
+			if b, err := os.ReadFile(entry); err == nil {
+				pad := strings.Repeat("# "+strings.Repeat("x", 61)+"\n", size/64)
+				_ = os.WriteFile(entry, append(append([]byte(pad), b...), []byte("node {\n  after_the_padding: 'x'\n}\n")...), 0)
+				stats.Inc("inc.large-file")
+			}
+		}
+		if i >= nDirected && r.Chance(0.03) { // invalid UTF-8 in a file
+			if b, err := os.ReadFile(entry); err == nil {
+				_ = os.WriteFile(entry, append(b, []byte("node {\n  latin1: 'p\xe9ss'\n}\n")...), 0)
+				stats.Inc("inc.invalid-utf8-file")
+			}
 		}
 		// the SPELLING of the entry path: production passes whatever the user typed after -c
 		origWd, _ := os.Getwd()
@@ -1219,7 +1292,11 @@ func TestVerifC17Config(t *testing.T) {
 		// describe the tree as the real file system shows it
 		var fw []string
 		nFiles := 0
-		_ = filepath.Walk(filepath.Dir(root), func(p string, fi os.FileInfo, err error) error {
+		walkBoth := func(fn filepath.WalkFunc) {
+			_ = filepath.Walk(filepath.Dir(root), fn)
+			_ = filepath.Walk(filepath.Dir(trusted), fn)
+		}
+		walkBoth(func(p string, fi os.FileInfo, err error) error {
 			if err != nil {
 				return nil
 			}
@@ -1234,7 +1311,7 @@ func TestVerifC17Config(t *testing.T) {
 				kind = "d"
 			} else {
 				b, _ := os.ReadFile(p)
-				content = string([]rune(string(b)))
+				content = string(b)
 			}
 			fw = append(fw, c17H(p), kind, strconv.Itoa(int(fi.Mode()&0o777)), c17H(content))
 			nFiles++
@@ -1248,7 +1325,11 @@ func TestVerifC17Config(t *testing.T) {
 		for _, v := range incVals {
 			pat := v
 			if !filepath.IsAbs(v) {
-				pat = filepath.Join(entryDir, v)
+				// the pattern Merger must hand to filepath.Glob: only the include VALUE is a pattern, the
+				// entry directory is a literal path (its * ? [ \ are quoted) — a harness-side STATEMENT of
+				// what is expected, answered by the real filepath.Glob; the model computes the same string
+				// itself and a disagreement is a loud glob-miss
+				pat = filepath.Join(c17QuoteGlob(entryDir), v)
 			}
 			if seen[pat] {
 				continue
@@ -1266,7 +1347,7 @@ func TestVerifC17Config(t *testing.T) {
 			}
 		}
 		var watchDirs []string
-		_ = filepath.Walk(filepath.Dir(root), func(p string, fi os.FileInfo, err error) error {
+		walkBoth(func(p string, fi os.FileInfo, err error) error {
 			if err == nil && fi.IsDir() {
 				watchDirs = append(watchDirs, p)
 			}
@@ -1312,5 +1393,6 @@ func TestVerifC17Config(t *testing.T) {
 		st.Emit(fmt.Sprintf("m %s C %s F %d %s G %d %s", c17H(entry), c17H(cwd), nFiles, strings.Join(fw, " "), nGlobs, strings.Join(gw, " ")), out)
 		_ = os.Chdir(origWd)
 		_ = os.RemoveAll(filepath.Join(base, fmt.Sprintf("t%d", i)))
+		_ = os.RemoveAll(filepath.Join(base, fmt.Sprintf("t%d-share", i)))
 	}
 }
